@@ -452,3 +452,49 @@ Proof.
   destruct (runs_total d cits minx fs) as [ob [op [-> ->]]].
   split; eapply strictly_reported; apply in_or_app; left; exact Hrep.
 Qed.
+
+(* ---- sensitivity: the two repairs (fix: c83cdd0, 17ffa16) are what the theorems rest on ---- *)
+(* _find_field as it was before c83cdd0: no test of the visited tuple *)
+Fixpoint find_field_unguarded (fuel : nat) (d : db) (e : entry) (name : str) : lookup :=
+  match fuel with
+  | O => OutOfFuel
+  | S f =>
+    match ci_get (e_fields e) name with
+    | Some v => Ok (Some v)
+    | None =>
+      match find_person_field e name with
+      | Some v => Ok (Some v)
+      | None =>
+        match ci_get (e_fields e) s_crossref with
+        | None => Ok None
+        | Some cr => match ci_get d cr with
+                     | None => Ok None
+                     | Some e' => find_field_unguarded f d e' name
+                     end
+        end
+      end
+    end
+  end.
+
+Definition loop_entry : entry := mkEntry 0 [97%N] [(s_crossref, [97%N])] [].   (* @misc{a, crossref = {a}} *)
+Definition loop_db : db := [([97%N], loop_entry)].
+
+Lemma unguarded_diverges_l : forall fuel, find_field_unguarded fuel loop_db loop_entry [116%N] = OutOfFuel.
+Proof. induction fuel as [|fuel IH]; [reflexivity|]. cbn -[find_field_unguarded] in *. cbn [find_field_unguarded]. exact IH. Qed.
+
+(* format_bibliography as it was before 17ffa16: format_entries(entries) without bib_data *)
+Definition format_bibliography_nobd (d : db) (cits : list str) (minx : Z) (fs : list str) : res (list report * list obs) :=
+  let '(cs, errs) := add_extra_citations d cits minx in
+  let '(es, miss) := py_entries d cs in
+  do os <- format_entries fs es None;
+  Ok (errs ++ miss, os).
+
+Definition f5_child : entry := mkEntry 0 [99%N] [(s_crossref, [112%N])] [].          (* @misc{c, crossref = {p}} *)
+Definition f5_parent : entry := mkEntry 1 [112%N] [([116%N], [84%N])] [].             (* @misc{p, t = {T}} *)
+Definition f5_db : db := [([99%N], f5_child); ([112%N], f5_parent)].
+
+Lemma nobd_disagrees_l :
+  map snd (match bst_run f5_db [[99%N]] 2 [[116%N]] with Ok (_, o) => o | _ => [] end) = [[Some [84%N]]] /\
+  map snd (match format_bibliography_nobd f5_db [[99%N]] 2 [[116%N]] with Ok (_, o) => o | _ => [] end) = [[None]] /\
+  map snd (match format_bibliography f5_db [[99%N]] 2 [[116%N]] with Ok (_, o) => o | _ => [] end) = [[Some [84%N]]].
+Proof. vm_compute. repeat split. Qed.
